@@ -36,6 +36,7 @@ type State struct {
 	known    map[string]bool
 	closures map[string]*closure
 	recov    int // recover-scope depth
+	recvs    string // number of values received from channels in this function so far (ghost, $recvs)
 	sends    string // number of channel sends that completed in this function so far (ghost, $sends)
 	barrier  int // states with different barriers are never merged (paths through different loops)
 	ghostN   int
@@ -44,7 +45,7 @@ type State struct {
 func (s *State) clone() *State {
 	n := &State{vars: make(map[types.Object]Val, len(s.vars)), heap: make(map[string]string, len(s.heap)),
 		pc: append([]string(nil), s.pc...), top: s.top, locks: map[string]string{}, known: make(map[string]bool, len(s.known)),
-		closures: map[string]*closure{}, recov: s.recov, barrier: s.barrier, sends: s.sends}
+		closures: map[string]*closure{}, recov: s.recov, barrier: s.barrier, sends: s.sends, recvs: s.recvs}
 	for k, v := range s.vars {
 		n.vars[k] = v
 	}
@@ -597,6 +598,14 @@ func (fc *FnCtx) mergeStates(sts []*State) *State {
 		return s.sends, true
 	}); ok {
 		m.sends = sd
+	}
+	if rv, ok := pick(func(s *State) (string, bool) {
+		if s.recvs == "" {
+			return "0", true
+		}
+		return s.recvs, true
+	}); ok {
+		m.recvs = rv
 	}
 	t, _ := pick(func(s *State) (string, bool) { return s.top, true })
 	if t != base.top {
